@@ -1,6 +1,6 @@
 """Property -> rules mapping."""
 from .core import Ctx
-from .rules import k1, reclaim, schemes
+from .rules import k1, reclaim, schemes, seqlock
 
 ALL_FILES = [".hpp"]
 RECL = ["reclamation/"]
@@ -45,11 +45,17 @@ def scheme_rules(ctx):
     schemes.hazard_pointer_rules(ctx)
     schemes.hazard_eras_rules(ctx)
     schemes.thread_block_list_rules(ctx)
+    schemes.epoch_rules(ctx)
+    schemes.qsbr_rules(ctx)
+    schemes.stamp_rules(ctx)
+    schemes.lfrc_rules(ctx)
 
 
 def C01(ctx):
     ctx.only = ("K1.", "K4.reclaim-after-unlink", "HP.protocol", "HP.active-gather", "HP.delete-licensed", "HP.validate-after-protect",
-                "HE.protocol", "HE.active-gather", "HE.delete-licensed", "HE.era-after-load", "HE.exception-safety", "HE.retire")
+                "HE.protocol", "HE.active-gather", "HE.delete-licensed", "HE.era-after-load", "HE.exception-safety", "HE.retire",
+                "EBR.protocol", "EBR.orphans", "EBR.constants", "EBR.activity", "QSBR.protocol", "QSBR.constants", "QSBR.activity",
+                "STAMP.protocol", "STAMP.delete-licensed", "LFRC.")
     k1_rules(ctx, "C01")
     reclaim.reclaim_after_unlink(ctx, [".hpp"])
     ctx.floor("K4.reclaim-after-unlink", 20)
@@ -59,7 +65,8 @@ def C01(ctx):
 
 def C02(ctx):
     ctx.only = ("K1.", "K4.reclaim-after-unlink", "HP.retire", "HP.thread-exit", "HP.delete-licensed", "HP.protocol",
-                "HE.retire", "HE.thread-exit", "HE.delete-licensed", "HE.protocol")
+                "HE.retire", "HE.thread-exit", "HE.delete-licensed", "HE.protocol", "EBR.orphans", "EBR.thread-exit", "EBR.protocol",
+                "QSBR.protocol", "QSBR.thread-exit", "STAMP.", "LFRC.delete-licensed", "LFRC.thread-exit", "LFRC.protocol")
     k1_rules(ctx, "C02")
     reclaim.reclaim_after_unlink(ctx, [".hpp"])
     scheme_rules(ctx)
@@ -74,7 +81,9 @@ def C10(ctx):
 
 
 def C17(ctx):
-    ctx.only = ("K1.", "TBL.", "HP.thread-exit", "HP.block-init", "HP.active-gather", "HE.thread-exit", "HE.block-init", "HE.active-gather")
+    ctx.only = ("K1.", "TBL.", "HP.thread-exit", "HP.block-init", "HP.active-gather", "HE.thread-exit", "HE.block-init", "HE.active-gather",
+                "EBR.thread-exit", "EBR.block-init", "EBR.activity", "EBR.orphans", "QSBR.thread-exit", "QSBR.block-init", "QSBR.activity",
+                "STAMP.thread-exit", "LFRC.thread-exit")
     k1_rules(ctx, "C17")
     scheme_rules(ctx)
     return ("Decides structural necessary conditions of control-block recycling.", "boundedness of bookkeeping as a quantity")
@@ -87,7 +96,14 @@ def C18(ctx):
     return ("Decides structural necessary conditions of hazard slot accounting.", "'at least K' as a count over all operation sequences")
 
 
-PROPS = {"C01": C01, "C02": C02, "C03": C03, "C10": C10, "C17": C17, "C18": C18}
+def C14(ctx):
+    k1_rules(ctx, "C14")
+    seqlock.rules(ctx)
+    return ("Decides the structural half of the seqlock contract: copy coverage of sizeof(T) for every instantiated T, protocol order of "
+            "load/store/update, reader/writer slot-index agreement, memory orders.", "absence of torn reads under all interleavings")
+
+
+PROPS = {"C14": C14, "C01": C01, "C02": C02, "C03": C03, "C10": C10, "C17": C17, "C18": C18}
 
 
 def run(prop, tier):
